@@ -4,7 +4,8 @@ patch="$1"; shift
 cd /repo || exit 2
 git diff --quiet || { echo "/repo is dirty"; exit 2; }
 git apply "$patch" || { echo "patch does not apply"; exit 2; }
-trap 'git -C /repo checkout -- . ; git -C /repo clean -fdq -- programs crates mock 2>/dev/null' EXIT
+# evidence written while a seeded change is applied is not evidence about the tree: restore the committed files afterwards
+trap 'git -C /repo checkout -- . ; git -C /repo clean -fdq -- programs crates mock 2>/dev/null; git -C /verif checkout -- evidence 2>/dev/null' EXIT
 cd /verif
 for p in "$@"; do
   out=$(./check "$p" --tier quick 2>&1); rc=$?
